@@ -463,9 +463,12 @@ OPAQUE = ("setup_tunables", "collect_feedbacks", "collect_resets", "get_injectio
 
 
 class CreateHooks(robot.RobotHooks):
+    shared_class = False
+
     def __init__(self, info):
         robot.RobotHooks.__init__(self, dict(info, skip_create=False))
         self.log = []
+        self.shared = Ext("SharedComponentClass", "user", role="class")
 
     def intercept(self, it, f, vals, node):
         if f.qualname == "MagicRobot._collect_injectables":
@@ -500,10 +503,21 @@ class CreateHooks(robot.RobotHooks):
             return lo
         if p.endswith(".pop") and getattr(fn_.parent, "is_hints", None) is not None and len(args) == 2:
             return args[1]
+        if self.shared_class and p.startswith("annotated_type#") and "." not in p and "(" not in p:
+            # variant: all components are instances of one and the same class
+            from .. import models
+
+            r = models.ext_call(it, fn_, args, kwargs, node)
+            r.attrs[".__class__"] = self.shared
+            return r
         return robot.RobotHooks.ext_call(self, it, fn_, args, kwargs, node)
 
 
-def create_paths(ctx):
+class CreateHooksShared(CreateHooks):
+    shared_class = True
+
+
+def create_paths(ctx, shared=False):
     info, worlds = prepare(ctx)
     w, per = worlds[0]
 
@@ -513,7 +527,7 @@ def create_paths(ctx):
         return r
 
     def hooks():
-        return CreateHooks(info)
+        return CreateHooksShared(info) if shared else CreateHooks(info)
 
     paths = fn.all_paths(ctx, run, hooks=hooks, world=w, max_paths=50000)
     return info, paths
